@@ -82,3 +82,105 @@ Proof.
   assert (0 <= (dx * (px - qx) + dy_ * (py - qy)) * (dx * (px - qx) + dy_ * (py - qy))) by apply Z.square_nonneg.
   lia.
 Qed.
+
+(** ---------------------------------------------------------------------------------------------------------
+    Meaning of the classification: [far_seg] really bounds the distance to EVERY point of the segment from below, [near_seg]
+    really exhibits a point of the segment that close.  Points of the segment are a + (sn/sd)(b - a) with 0 <= sn <= sd;
+    everything is scaled by sd (sd^2 for squared distances) to stay in Z. *)
+(** the point a + (sn/sd)(b-a) of the segment, scaled by sd: squared distance to p, scaled by sd^2 *)
+Definition sdist2 (p a b : pt) (sn sd : Z) : Z :=
+  let '(px, py) := p in let '(ax, ay) := a in let '(bx, by_) := b in
+  let ux := sd * (px - ax) - sn * (bx - ax) in let uy := sd * (py - ay) - sn * (by_ - ay) in ux * ux + uy * uy.
+
+Theorem far_seg_sound p a b g2 sn sd : 0 < sd -> 0 <= sn <= sd ->
+  far_seg p a b g2 = true -> g2 * (sd * sd) <= sdist2 p a b sn sd.
+Proof.
+  destruct p as [px py], a as [ax ay], b as [bx by_]. unfold far_seg, sdist2, dist2; cbn [fst snd].
+  set (dx := bx - ax). set (dy := by_ - ay). set (u := px - ax). set (v := py - ay).
+  intros Hsd Hsn.
+  assert (Id : (sd * u - sn * dx) * (sd * u - sn * dx) + (sd * v - sn * dy) * (sd * v - sn * dy)
+             = sd * sd * (u * u + v * v) - 2 * sd * sn * (u * dx + v * dy) + sn * sn * (dx * dx + dy * dy)) by ring.
+  destruct (u * dx + v * dy <=? 0) eqn:E1.
+  - intro H. apply Z.leb_le in H. apply Z.leb_le in E1. rewrite Id.
+    assert (Hl2 : 0 <= dx * dx + dy * dy) by (pose proof (Z.square_nonneg dx); pose proof (Z.square_nonneg dy); lia).
+    assert (0 <= sn * sn * (dx * dx + dy * dy)) by (apply Z.mul_nonneg_nonneg; [apply Z.square_nonneg | exact Hl2]).
+    assert (0 <= sd * sn) by (apply Z.mul_nonneg_nonneg; lia).
+    assert (sd * sn * (u * dx + v * dy) <= 0) by (apply Z.mul_nonneg_nonpos; lia).
+    assert (0 <= sd * sd) by apply Z.square_nonneg.
+    assert (g2 * (sd * sd) <= sd * sd * (u * u + v * v)) by (rewrite (Z.mul_comm g2); apply Z.mul_le_mono_nonneg_l; assumption).
+    lia.
+  - apply Z.leb_gt in E1.
+    destruct (dx * dx + dy * dy <=? u * dx + v * dy) eqn:E2.
+    + intro H. apply Z.leb_le in H. apply Z.leb_le in E2. rewrite Id.
+      (* |p-b|^2 = |p-a|^2 - 2 dot + len2 *)
+      assert (Hb : (px - bx) * (px - bx) + (py - by_) * (py - by_) = u * u + v * v - 2 * (u * dx + v * dy) + (dx * dx + dy * dy))
+        by (subst dx dy u v; ring).
+      rewrite Hb in H.
+      set (dot := u * dx + v * dy) in *. set (len2 := dx * dx + dy * dy) in *. set (n2 := u * u + v * v) in *.
+      (* sd^2 n2 - 2 sd sn dot + sn^2 len2 - sd^2 (n2 - 2 dot + len2) = 2 sd (sd - sn) dot - (sd^2 - sn^2) len2 = (sd - sn) (2 sd dot - (sd + sn) len2) >= 0 *)
+      assert (K : sd * sd * n2 - 2 * sd * sn * dot + sn * sn * len2 - sd * sd * (n2 - 2 * dot + len2)
+                  = (sd - sn) * (2 * sd * dot - (sd + sn) * len2)) by ring.
+      assert (0 <= (sd - sn) * (2 * sd * dot - (sd + sn) * len2)).
+      { apply Z.mul_nonneg_nonneg; [lia|].
+        assert (Hl2 : 0 <= len2) by (subst len2; pose proof (Z.square_nonneg dx); pose proof (Z.square_nonneg dy); lia).
+        assert (sd * len2 <= sd * dot) by (apply Z.mul_le_mono_nonneg_l; lia).
+        assert (sn * len2 <= sd * len2) by (apply Z.mul_le_mono_nonneg_r; lia).
+        lia. }
+      assert (0 <= sd * sd) by apply Z.square_nonneg.
+      assert (g2 * (sd * sd) <= sd * sd * (n2 - 2 * dot + len2)) by (rewrite (Z.mul_comm g2); apply Z.mul_le_mono_nonneg_l; assumption).
+      lia.
+    + intro H. apply Z.leb_le in H. apply Z.leb_gt in E2. rewrite Id.
+      set (dot := u * dx + v * dy) in *. set (len2 := dx * dx + dy * dy) in *. set (n2 := u * u + v * v) in *.
+      set (cr := dx * v - dy * u) in *.
+      (* Lagrange: n2 * len2 = dot^2 + cr^2 *)
+      assert (L : n2 * len2 = dot * dot + cr * cr) by (subst n2 len2 dot cr; ring).
+      assert (Hl : 0 < len2) by lia.
+      (* (sd^2 n2 - 2 sd sn dot + sn^2 len2) * len2 = sd^2 cr^2 + (sd dot - sn len2)^2 *)
+      assert (M : (sd * sd * n2 - 2 * sd * sn * dot + sn * sn * len2) * len2 = sd * sd * (cr * cr) + (sd * dot - sn * len2) * (sd * dot - sn * len2)).
+      { replace ((sd * sd * n2 - 2 * sd * sn * dot + sn * sn * len2) * len2)
+          with (sd * sd * (n2 * len2) - 2 * sd * sn * dot * len2 + sn * sn * len2 * len2) by ring.
+        rewrite L. ring. }
+      assert (0 <= (sd * dot - sn * len2) * (sd * dot - sn * len2)) by apply Z.square_nonneg.
+      assert (0 <= sd * sd) by apply Z.square_nonneg.
+      assert (sd * sd * (g2 * len2) <= sd * sd * (cr * cr)) by (apply Z.mul_le_mono_nonneg_l; assumption).
+      assert (G : g2 * (sd * sd) * len2 <= (sd * sd * n2 - 2 * sd * sn * dot + sn * sn * len2) * len2) by (rewrite M; lia).
+      apply Z.mul_le_mono_pos_r in G; assumption.
+Qed.
+
+Theorem near_seg_sound p a b t2 : near_seg p a b t2 = true ->
+  exists sn sd, 0 < sd /\ 0 <= sn <= sd /\ sdist2 p a b sn sd < t2 * (sd * sd).
+Proof.
+  destruct p as [px py], a as [ax ay], b as [bx by_]. unfold near_seg, sdist2, dist2; cbn [fst snd].
+  set (dx := bx - ax). set (dy := by_ - ay). set (u := px - ax). set (v := py - ay).
+  destruct (u * dx + v * dy <=? 0) eqn:E1.
+  - intro H. apply Z.ltb_lt in H. exists 0, 1. split; [lia|]. split; [lia|].
+    replace (1 * u - 0 * dx) with u by ring. replace (1 * v - 0 * dy) with v by ring. subst u v. lia.
+  - apply Z.leb_gt in E1.
+    destruct (dx * dx + dy * dy <=? u * dx + v * dy) eqn:E2.
+    + intro H. apply Z.ltb_lt in H. exists 1, 1. split; [lia|]. split; [lia|].
+      replace (1 * u - 1 * dx) with (px - bx) by (subst u dx; ring).
+      replace (1 * v - 1 * dy) with (py - by_) by (subst v dy; ring). lia.
+    + intro H. apply Z.ltb_lt in H. apply Z.leb_gt in E2.
+      set (dot := u * dx + v * dy) in *. set (len2 := dx * dx + dy * dy) in *.
+      exists dot, len2. split; [lia|]. split; [lia|].
+      set (cr := dx * v - dy * u) in *.
+      assert (I : (len2 * u - dot * dx) * (len2 * u - dot * dx) + (len2 * v - dot * dy) * (len2 * v - dot * dy) = len2 * (cr * cr))
+        by (subst len2 dot cr; ring).
+      rewrite I.
+      assert (Hl : 0 < len2) by lia.
+      replace (t2 * (len2 * len2)) with (len2 * (t2 * len2)) by ring.
+      apply Z.mul_lt_mono_pos_l; assumption.
+Qed.
+
+(** ... and for whole polylines *)
+Theorem far_edges_sound p es g2 : far_edges p es g2 = true ->
+  forall e sn sd, In e es -> 0 < sd -> 0 <= sn <= sd -> g2 * (sd * sd) <= sdist2 p (fst e) (snd e) sn sd.
+Proof.
+  unfold far_edges. intros H e sn sd He Hsd Hsn. rewrite forallb_forall in H. apply far_seg_sound; auto.
+Qed.
+Theorem near_path_sound p es t2 : near_path p es t2 = true ->
+  exists e sn sd, In e es /\ 0 < sd /\ 0 <= sn <= sd /\ sdist2 p (fst e) (snd e) sn sd < t2 * (sd * sd).
+Proof.
+  unfold near_path. intro H. apply existsb_exists in H as [e [He Hn]].
+  destruct (near_seg_sound _ _ _ _ Hn) as [sn [sd [A [B C]]]]. exists e, sn, sd. auto.
+Qed.
